@@ -207,6 +207,7 @@ def canon(ctx, v):
 def run(rep, tier, rng):
     from ofxtools.Parser import TreeBuilder
     ctx = H.Ctx()
+    H.ENTITY_VALUES = True       # the generator writes the document itself, escaping '&': held values may look like entities
     if ctx.d["problems"]:
         rep.broken.append("translator not complete: %s" % ctx.d["problems"][:3])
     per_class = 6 if tier == "thorough" else 2
